@@ -48,6 +48,11 @@ PI == INSTANCE PixelIndex
 SameDefs == /\ PI!BPC(h) = BytesPerColumn(h) /\ PI!DataBytes(w, h) = DataBytes(w, h) /\ PI!TotalBytes(w, h) = TotalBytes(w, h)
             /\ \A xy \in Pix : PI!ByteIndex(h, xy[1], xy[2]) = ByteIndex(h, xy[1], xy[2]) /\ PI!BitIndex(xy[2]) = BitIndex(xy[2])
 
+WA == INSTANCE WideArith
+WideSameDefs == /\ WA!WideChunks(w, h) = WideChunks(w, h) /\ WA!TotalBytes(w, h) = TotalBytes(w, h)
+                /\ \A xy \in Pix : <<WA!WideHi(h, xy[1], xy[2]), WA!WideLo(h, xy[1], xy[2])>> = WideIndex(h, xy[1], xy[2])
+                                     /\ WA!ByteIndex(h, xy[1], xy[2]) = ByteIndex(h, xy[1], xy[2])
+
 \* the wide (two-limb) forms used on recorded pages of 4 GiB and more agree with the plain ones
 WideAgrees == /\ WideChunks(w, h) * 16 = TotalBytes(w, h)
               /\ \A xy \in Pix : LET wi == WideIndex(h, xy[1], xy[2]) IN wi[1] * 65536 + wi[2] = ByteIndex(h, xy[1], xy[2]) /\ wi[2] \in 0..65535
